@@ -43,11 +43,11 @@ def shards(tier):
     return e1.std_shards(tier, f_quick=(5, 1), thorough_bound=14)
 
 
-def observe(objs, props, rows):
+def observe(objs, props, rows, ctx=None):
     """Label-level observation of a real context."""
     import concepts
     from concepts import algorithms
-    c = concepts.Context(objs, props, rows)
+    c = ctx if ctx is not None else concepts.Context(objs, props, rows)
     lat = c.lattice
     members = list(lat)
     cs = frozenset((frozenset(x.extent), frozenset(x.intent)) for x in members)
@@ -83,7 +83,28 @@ def check_case(case, ctr):
     V = []
     n, m, rows = case.n, case.m, case.rows
     objs, props = list(case.objs), list(case.props)
-    base = observe(objs, props, rows)
+    if n * m <= 9:
+        # the transformed contexts exist (created, not yet used) before the original is used:
+        # they share its object tuple or its property tuple
+        c0 = concepts.Context(objs, props, rows)
+        live = [concepts.Context(objs[::-1], props, rows[::-1]),
+                concepts.Context(objs, props[::-1], [tuple(r[::-1]) for r in rows]),
+                concepts.Context(objs + ['dup'], props, rows + [rows[0]]),
+                concepts.Context(objs, props + ['dup'], [tuple(r) + (r[0],) for r in rows]),
+                concepts.Context(props, objs, [tuple(rows[i][j] for i in range(n)) for j in range(m)])]
+        case.keep.append(live)
+        ctr['hit_transformed_created_first'] += 1
+        base = observe(objs, props, rows, ctx=c0)
+        again = observe(objs, props, rows)
+        for key in base:
+            if base[key] != again[key]:
+                V.append(common.violation(
+                    ID, 'original-after-creating-transformed-contexts',
+                    case.ident(observation=key), common.jsonable(_fmt(again[key])),
+                    common.jsonable(_fmt(base[key]))))
+                return V
+    else:
+        base = observe(objs, props, rows)
     ctr['calls'] += 1
 
     def bad(clause, key, exp, got, **kw):
